@@ -183,7 +183,12 @@ func (r *DynamicHostResolver) addressResolved(hostname string, addrs []string, e
 }
 
 func (r *DynamicHostResolver) notifyAddressChanged(hostname string, entry *AddressWithCallback, newAddrs []string, removedAddrs []string) {
-	for _, callback := range entry.callbacks {
+	// ResolveHost may append to the callbacks at the same time, so take a copy under the lock
+	r.Lock()
+	callbacks := make([]IPResolvedCallback, len(entry.callbacks))
+	copy(callbacks, entry.callbacks)
+	r.Unlock()
+	for _, callback := range callbacks {
 		callback(hostname, newAddrs, removedAddrs)
 	}
 
